@@ -1,6 +1,7 @@
 package main
 
 import (
+	"bytes"
 	"fmt"
 	"strings"
 
@@ -12,7 +13,7 @@ func init() {
 		lean:    []string{"JSight.Props.C07"},
 		exes:    []string{"jsight-ctx"},
 		run:     runC07,
-		assume:  []string{"catalog equality of a document and its inlining is decided by search (C04), the theorem is about the directive forest", "enum rules registered at paste time are modelled by name only"},
+		assume:  []string{"catalog equality of a document and its inlining is decided by search on whole documents (c07Docs); the theorem expand_eq_inline is about the directive forest", "ENUM rules are collected after the expansion (F39) and are outside the expansion model; the document-level search compares whole catalogs"},
 		rule:    "generated directive sequences with 1..4 macros (defined before or after use, with or without parentheses, pasting one another to any depth, cycles of length 1..4, unused macros) and pastes at top level, under URL, method, request, response, info, server; non-trivial = at least one PASTE is expanded; distinct = distinct token sequence",
 		trusted: []string{"the rendering of kind sequences to bytes; catalog equality of a document and its inlining is checked by search on the implementation (C04 gives the catalog model)"},
 	}
@@ -96,6 +97,7 @@ func macroDoc(r *Rng) []CTok {
 
 func runC07(ctx *Ctx) {
 	r := ctx.Rng.Fork()
+	c07Docs(ctx, r.Fork())
 	var seqs [][]CTok
 	for i := 0; i < ctx.Budget(30000, 1000000); i++ {
 		seqs = append(seqs, macroDoc(r))
@@ -419,4 +421,122 @@ func macroBodies(tt []CTok) (map[int][]int, bool) {
 		}
 	}
 	return out, true
+}
+
+// c07Docs: the statement of C07 on whole documents — a document that uses macros and its inlining (every PASTE
+// replaced by the body of its macro, the MACRO definitions deleted) have the same verdict and the same catalog;
+// a macro that is never pasted contributes nothing. Macro bodies are top-level blocks of generated documents
+// (types, enums, servers, tags, URL and method blocks), pasted once, twice or never.
+func c07Docs(ctx *Ctx, r *Rng) {
+	n := ctx.Budget(250, 15000)
+	cases := 0
+	indent := func(s string) string {
+		var b strings.Builder
+		for _, l := range strings.SplitAfter(s, "\n") {
+			if l != "" {
+				b.WriteString("  " + l)
+			}
+		}
+		return b.String()
+	}
+	fresh := []string{"ENUM @unusedEnum\n[1, 2]\n", "TYPE @unusedType\n{}\n", "GET /unused/path\n  200 any\n", "SERVER @unusedSrv\n  BaseUrl \"http://u\"\n",
+		"URL /unused/url\n  POST\n    200 any\n"}
+	for i := 0; i < n && len(ctx.Violations) < 10; i++ {
+		m := GenModel(r)
+		base, _ := m.Render(PlainStyle(), true)
+		blocks := splitTopBlocks(string(base))
+		if len(blocks) < 3 {
+			continue
+		}
+		head, rest := blocks[0], blocks[1:]
+		type mac struct {
+			name  string
+			body  string
+			count int
+		}
+		var macros []mac
+		var withMacros, inlined strings.Builder
+		withMacros.WriteString(head)
+		inlined.WriteString(head)
+		k := 0
+		for j := 0; j < len(rest); j++ {
+			kw := keywordOf(rest[j])
+			// blocks that hold free description text are left in place (the end of such a text depends on what follows)
+			// (a MACRO admits INFO, SERVER, URL, the HTTP methods, TYPE, ENUM and PASTE — not TAG)
+			inMacro := map[string]bool{"TYPE": true, "ENUM": true, "SERVER": true, "URL": true, "GET": true, "POST": true, "PUT": true, "PATCH": true, "DELETE": true}
+			movable := inMacro[kw] && !strings.Contains(rest[j], "Description")
+			if movable && r.Chance(1, 3) {
+				k++
+				body := rest[j]
+				if j+1 < len(rest) && r.Chance(1, 3) && !strings.Contains(rest[j+1], "Description") && inMacro[keywordOf(rest[j+1])] {
+					body += rest[j+1]
+					j++
+				}
+				mc := mac{name: fmt.Sprintf("@mac%d", k), body: body, count: 1}
+				macros = append(macros, mc)
+				withMacros.WriteString("PASTE " + mc.name + "\n")
+				inlined.WriteString(body)
+				continue
+			}
+			withMacros.WriteString(rest[j])
+			inlined.WriteString(rest[j])
+		}
+		// an unused macro and a macro pasted twice, made of fresh declarations
+		extraKind := r.Intn(3)
+		if extraKind == 0 {
+			macros = append(macros, mac{name: "@never", body: fresh[r.Intn(len(fresh))] + fresh[r.Intn(len(fresh))], count: 0})
+		} else if extraKind == 1 {
+			mc := mac{name: "@twice", body: fresh[r.Intn(len(fresh))], count: 2}
+			macros = append(macros, mc)
+			for c := 0; c < 2; c++ {
+				withMacros.WriteString("PASTE " + mc.name + "\n")
+				inlined.WriteString(mc.body)
+			}
+		}
+		if len(macros) == 0 {
+			continue
+		}
+		// the definitions go before or after their use
+		// (a macro written without parentheses takes in every following directive it admits, so the definitions
+		// that come first are parenthesised; at the end of the document a MACRO ends the previous one)
+		var defs, defsParen strings.Builder
+		for _, mc := range macros {
+			defs.WriteString("MACRO " + mc.name + "\n" + indent(mc.body))
+			defsParen.WriteString("MACRO " + mc.name + "\n(\n" + indent(mc.body) + ")\n")
+		}
+		docM := withMacros.String() + defs.String()
+		if r.Bool() {
+			docM = head + defsParen.String() + strings.TrimPrefix(withMacros.String(), head)
+		}
+		docI := inlined.String()
+		rm := RunProject(SingleFile([]byte(docM)), false)
+		ri := RunProject(SingleFile([]byte(docI)), false)
+		cases++
+		ctx.Cov.Count([]byte(docM), len(macros) >= 2)
+		in := projectInput(SingleFile([]byte(docM)))
+		in["op"] = "doc"
+		in["inlined"] = docI
+		if rm.Panic != "" || ri.Panic != "" {
+			continue
+		}
+		switch {
+		case rm.Accepted() && !ri.Accepted():
+			ctx.Cov.Hit("macro documents: accepted")
+			ctx.Violate(Violation{Kind: "wrong-output", Site: "macros", What: "a document with macros is accepted, its inlining is rejected: " + ri.Verdict(), Input: in,
+				Observed: "accepted", Expected: ri.Verdict(), Signature: "inline-rejected"})
+		case rm.Accepted() && !bytes.Equal(rm.JSON, ri.JSON):
+			ctx.Cov.Hit("macro documents: accepted")
+			ctx.Violate(Violation{Kind: "wrong-output", Site: "macros", What: "a document with macros and its inlining have different catalogs: " + firstDiff(rm.JSON, ri.JSON), Input: in,
+				Signature: "inline-catalog"})
+		case rm.Accepted():
+			ctx.Cov.Hit("macro documents: accepted")
+		default:
+			ctx.Cov.Hit("macro documents: rejected (" + firstWords(rm.Verdict(), 4) + ")")
+			if ri.Accepted() && extraKind != 1 {
+				ctx.Violate(Violation{Kind: "wrong-output", Site: "macros", What: "the inlining is accepted, the document with macros is rejected: " + rm.Verdict(), Input: in,
+					Observed: rm.Verdict(), Expected: "accepted", Signature: "macro-rejected"})
+			}
+		}
+	}
+	ctx.Cov.Component("documents with macros vs their inlining: verdict and catalog (specification on the implementation)", cases, len(ctx.Violations), "")
 }
